@@ -32,7 +32,7 @@ CHECKS["C03"] = {
     "parts": BASE,
     "level": "exploration",
     "technique": "runtime monitor: dialect lexers/decoders written from the engine manuals + real SQLite engine decode the rendered literal; marker-vs-hostile token-sequence comparison (bounded-exhaustive + random)",
-    "rule": "inputs: every string over the 21-symbol escape alphabet {' \" \\ NUL BS TAB LF CR SUB % _ a z Z 0 x e-acute euro g-clef ? $} up to length 3 (quick) / 4 (thorough) in each of 19 literal positions (query values, constants, ORDER BY FIELD, LIKE/ESCAPE, JSON, Postgres ARRAY, DEFAULT, MySQL COMMENT and ENUM labels, Postgres CREATE/ALTER TYPE labels, inject_parameters, INSERT/UPDATE values) x 3 backends; every char U+0000..U+FFFF plus sampled astral chars as Value::Char and as LIKE ESCAPE char; all byte strings of length <= 2 and random longer ones; random Unicode strings. Non-trivial = the value contains a non-alphanumeric character; distinct = distinct (value, position, backend)",
+    "rule": "inputs: every string over the 21-symbol escape alphabet {' \" \\ NUL BS TAB LF CR SUB % _ a z Z 0 x e-acute euro g-clef ? $} up to length 3 (quick) / 4 (thorough) in each of 19 literal positions (query values, constants, ORDER BY FIELD, LIKE/ESCAPE, JSON, Postgres ARRAY, DEFAULT, MySQL COMMENT and ENUM labels, Postgres CREATE/ALTER TYPE labels, inject_parameters, INSERT/UPDATE values) x 3 backends; every char U+0000..U+FFFF plus sampled astral chars as Value::Char and as LIKE ESCAPE char; all byte strings of length <= 2 and random longer ones; random Unicode strings, 1 in 150 of them padded to a length around a documented limit (255 .. 70,000 characters); each rendering goes through one of the equivalent entry points (build_collect_any / to_string / build_collect; build_any / build / to_string for schema statements) and the positions whose constant stays inline under build are followed by a bound value. Non-trivial = the value contains a non-alphanumeric character; distinct = distinct (value, position, backend)",
     "assumptions": [
         "MySQL default sql_mode (no ANSI_QUOTES / NO_BACKSLASH_ESCAPES); Postgres standard_conforming_strings=on; lexical rules transcribed from the manuals (DESIGN Appendix A)",
         "NUL is excluded for Postgres and SQLite text (no representation, as the property states)",
@@ -47,7 +47,7 @@ CHECKS["C04"] = {
     "parts": BASE,
     "level": "exploration",
     "technique": "runtime monitor: dialect lexers decode every rendered identifier; marker-vs-hostile token-sequence comparison over 62 identifier positions; SQLite catalogue / column-name read-back",
-    "rule": "inputs: every non-empty string over the 12-symbol identifier alphabet {\" ` ' \\ space ; - . [ ] a e-acute} up to length 3 (quick) / 4 (thorough) in each of 62 identifier positions of query and schema statements x 3 backends, plus random Unicode names up to 32 chars; non-trivial = the name contains a non-alphanumeric character; distinct = distinct (name, position, backend)",
+    "rule": "inputs: every non-empty string over the 12-symbol identifier alphabet {\" ` ' \\ space ; - . [ ] a e-acute} up to length 3 (quick) / 4 (thorough) in each of 62 identifier positions of query and schema statements x 3 backends, plus random Unicode names up to 32 chars, plus 13 names that come from #[derive(Iden)] / #[derive(IdenStatic)] enums and a unit struct (renamed variants with quote characters, in and out of last position) in 5 positions x 3 backends; non-trivial = the name contains a non-alphanumeric character; distinct = distinct (name, position, backend)",
     "assumptions": [
         "identifier lexical rules from the manuals: MySQL backtick with doubled backtick (no backslash escapes), Postgres/SQLite double quote with doubled double quote",
         "empty identifiers and NUL are outside the domain; a Postgres enum cast type ending in [] denotes the array form by documented convention",
@@ -73,7 +73,7 @@ CHECKS["C11"] = {
     "parts": BASE,
     "level": "exploration",
     "technique": "runtime monitor: independent reference template scanner vs cust_with_values / cust_with_expr(s) rendering in both modes, plus inject_parameters(build) == to_string",
-    "rule": "(a) inject_parameters(build(stmt)) == to_string(stmt) for 150k (quick) / 2M (thorough) generated statements of all kinds on the three backends; (b) templates assembled from 14 piece kinds (words, numbers, operators, whitespace, commas, parentheses, quoted literals and identifiers containing marks and doubled quotes, delimited placeholders incl. repeated/reordered $n, doubled marks, the other dialect's mark, `$word`, lone `$`): every piece sequence of length <= 4 (quick) / 5 (thorough) x 3 backends, random templates of up to 20 pieces incl. SQLite [bracket] identifiers, nested / doubled closing brackets, and Postgres words that contain `$<digits>` (one identifier, nothing to substitute); the statically dispatched to_string is compared as an entry point of its own; values are tagged integers, strings containing marks and quotes, or compound expressions; non-trivial = template has a placeholder or >= 2 piece kinds; distinct = distinct (template, backend)",
+    "rule": "(a) inject_parameters(build(stmt)) == to_string(stmt) for 150k (quick) / 2M (thorough) generated statements of all kinds on the three backends; (b) templates assembled from 14 piece kinds (words, numbers, operators, whitespace, commas, parentheses, quoted literals and identifiers containing marks and doubled quotes, delimited placeholders incl. repeated/reordered $n, doubled marks, the other dialect's mark, `$word`, lone `$`): every piece sequence of length <= 4 (quick) / 5 (thorough) x 3 backends, random templates of up to 20 pieces incl. SQLite [bracket] identifiers, nested / doubled closing brackets, Postgres words that contain `$<digits>` (one identifier, nothing to substitute), a mark's number running into a word (`$1st`, `$1$2`), templates without a trailing blank and ending in a lone `$`; the statically dispatched to_string is compared as an entry point of its own; values are tagged integers, strings containing marks and quotes, or compound expressions; non-trivial = template has a placeholder or >= 2 piece kinds; distinct = distinct (template, backend)",
     "assumptions": [
         "placeholders and doubled marks are delimited from adjacent words (on Postgres `abc$$` is an identifier and `$1$$` is ambiguous, so such gluing is outside the domain)",
         "inject_parameters is checked only for statements whose text outside quotes contains no literal mark (a literal `?` in built SQL is indistinguishable from a placeholder by construction)",
@@ -167,7 +167,7 @@ CHECKS["C01"] = {
     "parts": BASE,
     "level": "exploration",
     "technique": "runtime monitor: dialect lexer counts/numbers placeholders; a custom SqlWriter records the text/parameter event stream of the build; returned Values are compared with the reading-order values of an independent reference renderer; left-context check per placeholder",
-    "rule": "statements of all four kinds (+ WITH) from the scope-aware generator, nesting depth <= 4 (subqueries in FROM/IN/EXISTS/scalar position, set operations, plain and recursive CTEs, CASE, value lists, LIMIT/OFFSET, window frames with numeric bounds, upsert with conditions, RETURNING), dialect-specific feature sets for MySQL/Postgres/SQLite plus a portable statement rendered on all three, all value types (tagged: every value unique within its statement), builder routes drawn at random; non-trivial = >= 2 values and (nesting depth >= 1 or a MySQL UPDATE..JOIN re-routing); distinct = distinct (parameterised text, backend)",
+    "rule": "statements of all four kinds (+ WITH) from the scope-aware generator, nesting depth <= 4 (subqueries in FROM/IN/EXISTS/scalar position, set operations, plain and recursive CTEs, CASE, value lists, LIMIT/OFFSET, window frames with numeric bounds, upsert with conditions, RETURNING), dialect-specific feature sets for MySQL/Postgres/SQLite plus a portable statement rendered on all three, all value types (tagged: every value unique within its statement), builder routes drawn at random (every method that has an equivalent spelling is one route: the ExprTrait / Expr / SimpleExpr homes of each operator method, shorthands, plural forms, constructors, a WITH clause attached from outside through WithQuery); values include the ten chrono / time types, the NULL of every optional type and JSON documents of every kind; non-trivial = >= 2 values and (nesting depth >= 1 or a MySQL UPDATE..JOIN re-routing); distinct = distinct (parameterised text, backend)",
     "assumptions": [
         "the expected order of values is the reading order of the reference rendering (refsql.rs), which repeats an expression's values wherever the dialect's form repeats the expression (ORDER BY FIELD, MySQL NULLS emulation) and includes the two synthetic values of the documented empty-IN encoding",
         "Order::Field lists and LIKE ESCAPE characters are inlined in both modes by design and never expected in Values",
@@ -182,7 +182,7 @@ CHECKS["C02"] = {
     "parts": BASE,
     "level": "exploration",
     "technique": "runtime monitor: lexer-based substitution identity (parameterised text with backend literals spliced in == inline text), pairwise agreement of all public rendering entry points incl. WithQuery route and subquery embedding, idempotence/purity checks, and inline-vs-bound execution on SQLite",
-    "rule": "the C01 statement stream (independent seed) for the three dialects plus SQLite-executable statements; per statement: 5 inline + 5 parameterised trait entry points + the inherent forms, rendered twice; WithQuery vs with_cte for statements with CTEs; every third SELECT embedded as a FROM-subquery; SQLite statements executed in both forms; each inlined literal compared (as decoded tokens) with an independent spelling of the bound value (R.literal); fault injection: every fifth case is preceded by three renderings a backend refuses (it panics half-way: MySQL FULL OUTER JOIN, SQLite ANY(subquery)) — nothing may be left behind; non-trivial = statement has >= 1 bound value; distinct = distinct (inline text, backend)",
+    "rule": "the C01 statement stream (independent seed) for the three dialects plus SQLite-executable statements; per statement: 5 inline + 5 parameterised trait entry points + the inherent forms, rendered twice; WithQuery vs with_cte for statements with CTEs; every third SELECT embedded as a FROM-subquery; SQLite statements executed in both forms; each inlined literal compared (as decoded tokens) with an independent spelling of the bound value (R.literal; temporal values spelled from their components, under a local time zone of +05:30); fault injection: every fifth case is preceded by three renderings a backend refuses (it panics half-way: MySQL FULL OUTER JOIN, SQLite ANY(subquery)) — nothing may be left behind; non-trivial = statement has >= 1 bound value; distinct = distinct (inline text, backend)",
     "assumptions": ["engine-executed values restricted to those for which the inline literal and the bound value are the same SQLite value (integers, text, blobs, non-integral dyadic doubles, NULL)"],
     "design_ref": "DESIGN.md §5 C02",
     "level_text": "The relation between the two rendering modes is checked as a relation: the inline text must be byte-identical to the parameterised text with value_to_string literals substituted at the placeholder tokens, every entry point must agree, a second rendering must be identical, the statement must compare equal to its pre-render clone, and on SQLite both forms must return the same rows and leave the same tables.",
@@ -239,7 +239,7 @@ CHECKS["C13"] = {
     "parts": [{"variant": "base"}, {"variant": "exact"}],
     "level": "exploration",
     "technique": "runtime monitor: generated SQLite schema statements are executed on the real engine; the engine's catalogue (pragma_table_xinfo, index_list, index_xinfo, foreign_key_list, sqlite_master) and behavioural probes (valid row accepted, NULL / CHECK-violating row rejected, defaults read back, typeof() of stored probes) are compared with the declared catalogue after every statement of a history; run on the default build and on a build with option-sqlite-exact-column-type (every integer type must then be declared exactly `integer`)",
-    "rule": "(a) every SQLite-supported column type (34 parameterisations) x every ordered pair of column specifications from {NOT NULL, NULL, DEFAULT int/text/NULL/CURRENT_TIMESTAMP, UNIQUE, PRIMARY KEY, CHECK, COMMENT} plus the AUTOINCREMENT forms, as single-column tables; (b) random histories: 1-2 tables of 1-6 columns with random specification orders, table-level (composite) primary keys and named UNIQUE constraints with column directions (compared with the automatic indexes' directions), foreign keys with every action pair, table CHECKs, generated columns, followed by up to 5 of ADD COLUMN / RENAME COLUMN / DROP COLUMN / RENAME TO / CREATE [UNIQUE] INDEX [IF NOT EXISTS] with ASC/DESC, prefix lengths (ignored by SQLite), odd names and partial predicates built by one to three and_where / cond_where calls / DROP INDEX / DROP TABLE [IF EXISTS]; schema-qualified (`main`) ALTER/RENAME/DROP targets, DROP TABLE IF EXISTS on an absent table, composite foreign keys built through from()/to() and from_col()/to_col(); both builds are summed; non-trivial = every executed history; distinct = distinct statement texts",
+    "rule": "(a) every SQLite-supported column type (34 parameterisations) x every ordered pair of column specifications from {NOT NULL, NULL, DEFAULT int/text/NULL/CURRENT_TIMESTAMP, UNIQUE, PRIMARY KEY, CHECK, COMMENT} plus the AUTOINCREMENT forms, as single-column tables; (b) random histories: 1-2 tables of 1-6 columns with random specification orders, table-level (composite) primary keys and named UNIQUE constraints with column directions (compared with the automatic indexes' directions), foreign keys with every action pair, table CHECKs, a second check() call on a column (probed by behaviour), one Index::create() builder reused across primary_key() and index(), generated columns, followed by up to 5 of ADD COLUMN / RENAME COLUMN / DROP COLUMN / RENAME TO / CREATE [UNIQUE] INDEX [IF NOT EXISTS] with ASC/DESC, prefix lengths (ignored by SQLite), odd names and partial predicates built by one to three and_where / cond_where calls / DROP INDEX / DROP TABLE [IF EXISTS]; schema-qualified (`main`) ALTER/RENAME/DROP targets, DROP TABLE IF EXISTS on an absent table, composite foreign keys built through from()/to() (single names and tuples) and from_col()/to_col(); column types through ColumnDef's setters or the constructor, statements through build / to_string / build_any and the TableStatement wrapper; both builds are summed; non-trivial = every executed history; distinct = distinct statement texts",
     "assumptions": [
         "intended affinity per abstract type is the table in ddl.rs (integer family -> INTEGER, float/double/decimal/money -> REAL, char/string/text/date-time/json/uuid/enum -> TEXT, binary/varbinary/blob -> BLOB, boolean -> NUMERIC), checked against SQLite's five type-name rules and, for unconstrained single-column tables, by typeof() of stored probes (INTEGER and NUMERIC store alike)",
         "SQLite semantics encoded in the oracle: an `integer` PRIMARY KEY column is a rowid alias (NULL/DEFAULT replaced by a fresh rowid); one automatic index per distinct UNIQUE column list and none for a list equal to the primary key; ADD COLUMN cannot add PRIMARY KEY/UNIQUE columns and needs a non-NULL literal default for NOT NULL",
@@ -255,7 +255,7 @@ CHECKS["C14"] = {
     "parts": BASE,
     "level": "exploration",
     "technique": "runtime monitor: strict recursive-descent DDL grammar models of MySQL 8.0 and PostgreSQL 15 (vcore/ddlparse.rs, incl. each dialect's type table) parse the rendered schema statement and an independent reference rendering of the same declaration; the element trees must be equal",
-    "rule": "(a) every ColumnType parameterisation of each dialect (39 MySQL, 48 Postgres) x every compatible column-specification sequence of length <= 2 (quick) / 3 (thorough) from {NOT NULL, NULL, DEFAULT int/text/NULL, UNIQUE, PRIMARY KEY, CHECK, COMMENT, auto increment} as CREATE TABLE, every third also as ALTER TABLE modify_column; (b) random statements of every kind: CREATE TABLE with 1-5 columns, table-level indexes / primary keys / foreign keys / checks / MySQL options, ALTER TABLE with 1-3 options (add/modify/rename/drop column, add/drop foreign key), RENAME, DROP TABLE, TRUNCATE, CREATE/DROP INDEX with every option, foreign-key create/drop, Postgres CREATE/ALTER/DROP TYPE and CREATE/DROP EXTENSION; non-trivial = every matched statement; distinct = distinct (rendered text, dialect)",
+    "rule": "(a) every ColumnType parameterisation of each dialect (39 MySQL, 61 Postgres incl. every interval field set, given as the variant or parsed from its spelling) x every compatible column-specification sequence of length <= 2 (quick) / 3 (thorough) from {NOT NULL, NULL, DEFAULT int/text/NULL, UNIQUE, PRIMARY KEY, CHECK, COMMENT, auto increment} as CREATE TABLE, every third also as ALTER TABLE modify_column; (b) random statements of every kind: CREATE TABLE with 1-5 columns, table-level indexes / primary keys / foreign keys / checks / MySQL options, ALTER TABLE with 1-3 options (add/modify/rename/drop column, add/drop foreign key), RENAME, DROP TABLE, TRUNCATE, CREATE/DROP INDEX with every option, foreign-key create/drop, Postgres CREATE/ALTER/DROP TYPE and CREATE/DROP EXTENSION; schema-qualified tables wherever the backend accepts them, a second CHECK per column, MySQL COLLATE as free-form column text, Postgres ALTER COLUMN .. TYPE .. USING, every statement through one of build / to_string / build_any / the TableStatement wrapper, column types through ColumnDef's setters or the constructor; non-trivial = every matched statement; distinct = distinct (rendered text, dialect)",
     "assumptions": [
         "the DDL grammar and type tables of DESIGN Appendix G are the trusted base (e.g. MySQL varchar needs a length, Postgres money takes no parameters, column COMMENT / AUTO_INCREMENT are MySQL only, VIRTUAL generated columns do not exist in Postgres)",
         "expected type mapping (lengths, precision and unsigned-ness preserved; serial types replace the type on Postgres auto increment) is the table in refddl.rs; unspecified string lengths follow the crate's documented defaults (varchar(255))",
